@@ -173,23 +173,23 @@ func (p Place) MarshalJSON() ([]byte, error) {
 		notEmpty = JSONWriteObjectValue(&b, *o)
 		return nil
 	})
-	if p.Accuracy > 0 {
+	if p.Accuracy != 0 {
 		notEmpty = JSONWriteFloatProp(&b, "accuracy", p.Accuracy) || notEmpty
 	}
-	if p.Altitude > 0 {
+	if p.Altitude != 0 {
 		notEmpty = JSONWriteFloatProp(&b, "altitude", p.Altitude) || notEmpty
 	}
-	if p.Latitude > 0 {
+	if p.Latitude != 0 {
 		notEmpty = JSONWriteFloatProp(&b, "latitude", p.Latitude) || notEmpty
 	}
-	if p.Longitude > 0 {
+	if p.Longitude != 0 {
 		notEmpty = JSONWriteFloatProp(&b, "longitude", p.Longitude) || notEmpty
 	}
-	if p.Radius > 0 {
+	if p.Radius != 0 {
 		notEmpty = JSONWriteIntProp(&b, "radius", p.Radius) || notEmpty
 	}
 	if len(p.Units) > 0 {
-		notEmpty = JSONWriteStringProp(&b, "radius", p.Units) || notEmpty
+		notEmpty = JSONWriteStringProp(&b, "units", p.Units) || notEmpty
 	}
 	if notEmpty {
 		JSONWrite(&b, '}')
